@@ -43,6 +43,7 @@ func vNodeType() string {
 }
 
 type vPerm struct {
+	isFile   bool // the world's one non-permanode blob (camliType file)
 	ref      blob.Ref
 	nodeType string // "" = no camliNodeType claim
 	tag      string // "" = no tag claim; else 2 bytes over {x,y}
@@ -94,15 +95,17 @@ func vLeaves() []vLeaf {
 	pre, suf := vXY(), vXY()
 	return []vLeaf{
 		{func() *Constraint { return &Constraint{Permanode: &PermanodeConstraint{Attr: "camliNodeType", Value: nt}} },
-			func(p vPerm) bool { return p.nodeType == nt }},
+			func(p vPerm) bool { return !p.isFile && p.nodeType == nt }},
 		{func() *Constraint { return &Constraint{Permanode: &PermanodeConstraint{Attr: "tag", Value: tv}} },
-			func(p vPerm) bool { return p.tag == tv }},
+			func(p vPerm) bool { return !p.isFile && p.tag == tv }},
 		{func() *Constraint { return &Constraint{CamliType: "permanode"} },
-			func(p vPerm) bool { return true }},
+			func(p vPerm) bool { return !p.isFile }},
+		{func() *Constraint { return &Constraint{CamliType: "file"} },
+			func(p vPerm) bool { return p.isFile }},
 		{func() *Constraint {
 			return &Constraint{Permanode: &PermanodeConstraint{Attr: "tag", ValueMatches: &StringConstraint{HasPrefix: pre, HasSuffix: suf}}}
 		},
-			func(p vPerm) bool { return len(p.tag) == 2 && p.tag[:1] == pre && p.tag[1:] == suf }},
+			func(p vPerm) bool { return !p.isFile && len(p.tag) == 2 && p.tag[:1] == pre && p.tag[1:] == suf }},
 	}
 }
 
@@ -120,7 +123,7 @@ func vTree() (*Constraint, func(p vPerm) bool) {
 	case 1:
 		l := pick()
 		// "not" must stay within permanodes for the permanode-only sorts
-		return logical("and", &Constraint{CamliType: "permanode"}, logical("not", l.mk(), nil)), func(p vPerm) bool { return !l.ref(p) }
+		return logical("and", &Constraint{CamliType: "permanode"}, logical("not", l.mk(), nil)), func(p vPerm) bool { return !p.isFile && !l.ref(p) }
 	case 2:
 		a, b := pick(), pick()
 		switch vrt.Choice(3) {
@@ -132,7 +135,7 @@ func vTree() (*Constraint, func(p vPerm) bool) {
 		return logical("xor", a.mk(), b.mk()), func(p vPerm) bool { return a.ref(p) != b.ref(p) }
 	}
 	a, b := pick(), pick()
-	return logical("and", &Constraint{CamliType: "permanode"}, logical("or", a.mk(), b.mk())), func(p vPerm) bool { return a.ref(p) || b.ref(p) }
+	return logical("and", &Constraint{CamliType: "permanode"}, logical("or", a.mk(), b.mk())), func(p vPerm) bool { return !p.isFile && (a.ref(p) || b.ref(p)) }
 }
 
 func vQueryCheck(srt SortType) {
@@ -161,8 +164,17 @@ func vQueryCheck(srt SortType) {
 		vrt.Assert(n <= 1, "no blob is returned twice")
 		_ = i
 	}
+	// the world's file blob
+	nf := 0
 	for _, b := range res.Blobs {
-		vrt.Assert(b.Blob != blob.VerifSmallRef(90), "a non-permanode blob never matches a permanode query")
+		if b.Blob == blob.VerifSmallRef(90) {
+			nf++
+		}
+	}
+	if ref(vPerm{isFile: true}) {
+		vrt.Assert(nf == 1, "a matching non-permanode blob is returned once")
+	} else {
+		vrt.Assert(nf == 0, "a non-permanode blob that does not match is not returned")
 	}
 	if srt == BlobRefAsc {
 		for i := 1; i < len(res.Blobs); i++ {
